@@ -255,6 +255,9 @@ func infoOfCommon(cc *ssa.CallCommon) callInfo {
 		ci.Callee = fn
 		ci.QName = QName(fn)
 		ci.Short = fn.Name()
+		if o := fn.Origin(); o != nil {
+			ci.Short = o.Name() // an instantiation is named "Unref[K V Opts]": use the generic's name
+		}
 		if fn.Signature.Recv() != nil && len(cc.Args) > 0 {
 			ci.Recv = cc.Args[0]
 		}
